@@ -519,6 +519,14 @@ impl UdpProxy {
         Some(session)
     }
 
+    /// Token (slab key of the `ListenSession`) of the listener at this address.
+    pub fn listener_token(&self, address: &SocketAddr) -> Option<Token> {
+        self.listeners
+            .iter()
+            .find(|(_, listener)| listener.borrow().address == *address)
+            .map(|(token, _)| *token)
+    }
+
     pub fn give_back_listeners(&mut self) -> Vec<(SocketAddr, UdpSocket)> {
         self.listeners
             .values()
